@@ -488,6 +488,23 @@ impl std::fmt::Debug for ThunkBlock {
     }
 }
 
+/// Verification hook: runs the block-assignment kernel over plain `(start, end)` ranges.
+#[cfg(wild_verif)]
+pub(crate) fn verif_assign_thunk_blocks(
+    objects: &[(u64, u64)],
+    max_branch_range: u64,
+    out: &mut [(u32, bool)],
+) -> usize {
+    assign_thunk_blocks(
+        objects
+            .iter()
+            .enumerate()
+            .map(|(i, &(start, end))| (FileId::from_encoded(i as u32), start, end)),
+        max_branch_range,
+        |file_id, block_id, is_owner| out[file_id.as_u32() as usize] = (block_id.0, is_owner),
+    )
+}
+
 #[cfg(test)]
 mod tests {
     use super::*;
